@@ -13,7 +13,8 @@
 (*     len      bytes usable = real hi - real lo (plain integer)                   *)
 (*     align    alignment requested or configured                                  *)
 (* pend: a rejected bad free (double / foreign) happened and the pool has not yet  *)
-(*   shown to be usable again (no successful allocation since).                    *)
+(*   shown to be usable again (no successful allocation or release since; an       *)
+(*   exhausted pool may go on refusing allocations).                               *)
 (*                                                                                 *)
 (* Every public operation is one action whose parameters are the arguments AND     *)
 (* the result the implementation returned; the action is enabled exactly for the   *)
@@ -74,12 +75,12 @@ AllocOk(b, req, len, align, mis, lo, hi, reg, cap, span) ==
 (* allocate -> Err / None: a refusal, nothing changes (always allowed) *)
 AllocErr == UNCHANGED <<live, pend>>
 
-(* free of a live block must succeed and removes it *)
+(* free of a live block must succeed and removes it (a pool that still does that is usable) *)
 Free(b, ok) ==
     /\ b \in DOMAIN live
     /\ ok = TRUE
     /\ live' = Without({b})
-    /\ UNCHANGED pend
+    /\ pend' = FALSE
 
 (* en-bloc release (arena reset, scope drop): all blocks of S are live and vanish *)
 Release(S) ==
@@ -110,7 +111,7 @@ ForeignFree(ok) ==
 (* statistics, validate(), clear() of cached free chunks ...: live blocks are not affected *)
 Maintenance == UNCHANGED <<live, pend>>
 
-(* end of a run: after a rejected bad free the pool has served an allocation again *)
+(* end of a run: after a rejected bad free the pool has served an allocation or a release again *)
 EndRun == pend = FALSE /\ UNCHANGED <<live, pend>>
 
 (* ---- properties ---- *)
